@@ -110,6 +110,8 @@ def handle5 (op : String) (a obs : List String) : Option Verdict :=
         (live "uni").all (splitList (field obs "delivered_uni")).contains &&
         (live "bi").all (splitList (field obs "delivered_bi")).contains &&
         (live "dgram").all (splitList (field obs "delivered_dgram")).contains),
+      ("foreign_streams_refused_with_buffered_stream_rejected",
+        (splitList (field obs "foreign")).all (fun e => e.endsWith s!":stopped:{code}")),
       ("connection_survives", field obs "peer_close" == "alive")]
     pure (model, prop)
   | "policy" => do
@@ -199,6 +201,16 @@ def handle5 (op : String) (a obs : List String) : Option Verdict :=
       ("requested_timeout_applied",
         !(0 < ms && ms ≤ 2000) || (field obs "closed_after_ms" == "ok" && field obs "error" == "timed_out")),
       ("long_timeout_keeps_connection", !(2000 < ms && ms < 2^62) || field obs "error" == "alive")]
+    pure (model, prop)
+  | "keepalive" => do
+    let ka ← parseNat (get a 1)
+    -- idle timeout 600 ms on both sides, observed after 2 s: the interval reaches quinn unchanged
+    -- (`Generated.KEEP_ALIVE_PASSED_UNCHANGED`), so pings every `ka` < 600 ms keep it alive
+    let kept := Generated.KEEP_ALIVE_PASSED_UNCHANGED && 0 < ka && ka < 600
+    let model := [if kept then "after_2s=alive" else "after_2s=timed_out"]
+    let prop := check [("no_trap", !isTrap obs),
+      ("keep_alive_applied", !(0 < ka && ka < 600) || field obs "after_2s" == "alive"),
+      ("idle_timeout_applied_without_keep_alive", ka != 0 || field obs "after_2s" == "timed_out")]
     pure (model, prop)
   | "alpn" =>
     let model := [s!"alpn={hex Generated.WEBTRANSPORT_ALPN.toUTF8.toList}", "tls13=-"]
